@@ -326,3 +326,23 @@ Proof.
   split; vm_compute; reflexivity.
 Qed.
 Print Assumptions C17_tree_witness.
+
+(* GLUE to C16 (Proofs/Glue_enc_certs.v, docs/Glue.md): the metadata store of the *_md theorems is Model/CertSelect.v's;
+   C16 ties Model/MdStore.v to MetadataStore.  For the store an IdP loaded from its configured sources, read as a
+   CertSelect store ([abs_store num]): every ciphertext opens under a certificate handed in, or under a real
+   certificate of an encryption / use-less KeyDescriptor of an UNEXPIRED EntityDescriptor carrying the SP's entity id
+   in the document of a source load() registered; and the hypothesis sp_enc_cert of the theorems above is exactly
+   "the entity the C16 store serves for the SP declares such a certificate". *)
+From PV Require Model.MdStore Proofs.Glue_certs Proofs.Glue_enc_certs.
+Theorem C17_ciphertext_keys_are_declared_in_loaded_metadata :
+  forall num now srcs g sp i t k,
+    idp_build_md g (Glue_certs.abs_store num (MdStore.load_all now [] srcs)) sp i = Ok t -> In k (enc_keys t) ->
+    (g_cert_assertion g = CGiven k true \/ g_cert_advice g = CGiven k true \/
+     (Glue_certs.declared_in_documents num now srcs MdStore.U_ENCRYPTION sp k /\ k <> 0%N)) /\
+    (forall st x, sp_enc_cert (Glue_certs.abs_store num st) sp x <-> Glue_certs.declared_enc_key num st sp x).
+Proof.
+  intros num now srcs g sp i t k H Hk. split.
+  - exact (Glue_enc_certs.ciphertext_keys_from_loaded_documents num now srcs g sp i t k H Hk).
+  - intros st x. apply Glue_enc_certs.sp_enc_cert_declared.
+Qed.
+Print Assumptions C17_ciphertext_keys_are_declared_in_loaded_metadata.
